@@ -60,7 +60,7 @@ func genHistory(r *Rng, spec *WorldSpec, n int, withCrash bool) []Op {
 		case 10:
 			ops = append(ops, Op{ID: nid(), Kind: "adv", D: r.Range(1, life)})
 		case 11:
-			ops = append(ops, Op{ID: nid(), Kind: "idp", Args: map[string]string{r.Pick([]string{"refresh_deny", "refresh_omit_id", "refresh_omit_access", "refresh_omit_expires"}): r.Pick([]string{"true", "false"})}})
+			ops = append(ops, Op{ID: nid(), Kind: "idp", Args: map[string]string{r.Pick([]string{"refresh_deny", "refresh_omit_id", "refresh_omit_access", "refresh_omit_expires", "id_no_exp"}): r.Pick([]string{"true", "false"})}})
 		case 12:
 			ops = append(ops, Op{ID: nid(), Kind: "rotate", S: r.Pick([]string{"publish", "nopublish", "keep-old"})})
 		case 13:
